@@ -71,6 +71,19 @@ func c08Track(fs *Facts) {
 				switch {
 				case f.Str(ifs.Cond) == "existedTreasureObj == nil":
 					fs.Tri("bucketNotifyInsert", c08TopLevel(f, ifs.Body, "s.notifyBucketsInsert(t)"), c08At(swampGo, f, ifs))
+					// the order of the two statements inside the branch: beaconKey.Add, then the notification
+					add, told := -1, -1
+					for n, st := range ifs.Body.List {
+						switch f.Str(st) {
+						case "s.beaconKey.Add(t)":
+							add = n
+						case "s.notifyBucketsInsert(t)":
+							told = n
+						}
+					}
+					if add >= 0 && told >= 0 {
+						fs.Tri("bucketNotifyAfterAdd", TriOf(told > add), c08At(swampGo, f, ifs))
+					}
 				case strings.HasPrefix(f.Str(ifs.Cond), "t.IsContentChanged() || t.IsContentTypeChanged() || t.IsExpirationTimeChanged()"):
 					fs.Tri("bucketNotifyUpdate", c08TopLevel(f, ifs.Body, "s.notifyBucketsUpdate(t)"), c08At(swampGo, f, ifs))
 				}
